@@ -229,10 +229,10 @@ def obligations(tier, seed):
         rest = [o for o in obs if o not in keep and "/plain" not in o.key]
         obs = keep + rnd.sample(rest, len(rest) // 3)
     envs = [DefaultSchemaOb(k, st, "ansi", "env", budget, seed) for k, st in tpl if "/plain" in k and k.startswith(("insert/", "ctas/"))]
-    obs += envs if tier == "thorough" else rnd.sample(envs, len(envs) // 2)
+    obs += rnd.sample(envs, len(envs) // 2)
     for mech in ("env_in_scope", "override_over_env"):
         more = [DefaultSchemaOb(k, st, "ansi", mech, budget, seed) for k, st in tpl if "/plain" in k and k.startswith(("insert/", "ctas/"))]
-        obs += more if tier == "thorough" else rnd.sample(more, max(4, len(more) // 6))
+        obs += rnd.sample(more, max(4, len(more) // (3 if tier == "thorough" else 6)))
     # the legacy analyzer creates its tables elsewhere (sqlparse/models.py): same twin there
     lsub = [(k, st) for k, st in tpl if ("/plain" in k and k.startswith("insert/") and "paren" not in k and "mixed" not in k) or k.startswith(("update/", "merge/table"))]
     for k, st in (lsub if tier == "thorough" else rnd.sample(lsub, min(len(lsub), 16))):
